@@ -42,6 +42,13 @@ def compare_step(ctx, suite, case, st):
             ctx.disagree(suite, case, f'level {st["level"]}: implementation returned a graph, model raises {rep.get("err")}')
             return False
         m = rep['ok']
+        # the hypothesis the C10/C12 theorems make about templates (distinct keys, bonds between the template's
+        # own atoms; CGV.C10.fragsWFb_iff) is evaluated by the model on the templates the real reader produced
+        if rep.get('hyp', {}).get('frags_wf') is False:
+            ctx.disagree(suite, case, f'level {st["level"]}: the fragment templates handed to the resolver do not meet '
+                                      'the hypothesis FragsWF of the C10/C12 theorems (duplicate keys or a dangling bond)')
+            return False
+        ctx.feature('hyp:frags-wf')
         d = lib.diff_obj(lib.model_mol_canon(m['fine']), st['fine'], 'fine')
         if d is None:
             d = lib.diff_obj(m['coarse'], st['coarse'], 'coarse')
